@@ -28,13 +28,16 @@ if [ -f "$SEED/demo_test.go" ] && [ "${SKIPDEMO:-}" = "" ]; then
     snaps|snaps_test) D=snaps;; match|match_test) D=match;; difflib) D=internal/difflib;; yaml) D=match/internal/yaml;; examples|examples_test) D=examples;; *) D="";;
   esac
   if [ -n "$D" ]; then
-    cp "$SEED/demo_test.go" "$W/$D/zz_seed_demo_test.go"
+    # honour the placement the demo's header asks for (some demos derive the snapshot file name from their own file name)
+    DN=$(head -30 "$SEED/demo_test.go" | grep -oE "$D/[A-Za-z0-9_.]+_test\.go" | head -1 | xargs -r basename)
+    [ -z "$DN" ] && DN=zz_seed_demo_test.go
+    cp "$SEED/demo_test.go" "$W/$D/$DN"
     WITH=$(cd "$W" && timeout 600 go test -vet=off -count=1 ./$D 2>&1 | tail -5)
     if echo "$WITH" | grep -q '^ok'; then DEMO="demo-passes-with-change(!)"; else DEMO="demo-fails-with-change"; fi
     (cd "$W" && git apply -R "$SEED/patch.diff" 2>/dev/null || patch -p1 -R --fuzz=3 -s < "$SEED/patch.diff")
     WITHOUT=$(cd "$W" && timeout 600 go test -vet=off -count=1 ./$D 2>&1 | tail -5)
     if echo "$WITHOUT" | grep -q '^ok'; then DEMO="$DEMO,demo-passes-without"; else DEMO="$DEMO,demo-fails-without(!)"; echo "$WITHOUT"; fi
-    rm -f "$W/$D/zz_seed_demo_test.go"
+    rm -f "$W/$D/$DN"
     (cd "$W" && git checkout -q -- . && git clean -fdq && (git apply "$SEED/patch.diff" 2>/dev/null || patch -p1 --fuzz=3 -s < "$SEED/patch.diff"))
   else
     DEMO="demo-needs-manual-run(package $PKG)"
